@@ -232,6 +232,13 @@ def run_case(ctx, mon, labels, opts, tag, which, stale=None):
     if len(recs) != 1:
         ctx.judge("compute", INCONCLUSIVE, case, reason="monitor saw %d compute() calls" % len(recs))
         return
+    # the layers are judged against the options the engine holds; those must be the ones the caller gave (however they
+    # were handed over), or the engine would be consistent with a configuration nobody asked for
+    held = recs[0]["options"]
+    lost = {k: (opts[k], held.get(k, "<absent>")) for k in opts if held.get(k, "<absent>") != opts[k]}
+    if lost:
+        ctx.judge("compute", VIOLATED, case, finding={"reason": "the engine does not hold the options it was given", "given_vs_held": {k: [repr(a), repr(b)] for k, (a, b) in lost.items()}}, key="engine-options-lost")
+        return
     judge_layers(ctx, recs[0], case, tag, which)
 
 
